@@ -178,7 +178,10 @@ def main() -> None:
     if len(outfile) == 0 or outfile == '-':
         sys.stdout.write(output)
     else:
-        with open(outfile, 'w') as f:
-            f.write(output)
+        try:
+            with open(outfile, 'w') as f:
+                f.write(output)
+        except OSError:
+            die('cannot write output file: ' + outfile)
     if errors > 0:
         die()
